@@ -6,6 +6,7 @@ import os
 from typing import Any, Dict, List, Optional, Tuple
 
 from .. import astutil as A
+from .. import strbuild as S
 from .. import cfg as C
 from .. import loader
 from ..core import Ctx
@@ -48,15 +49,21 @@ def _local_def(fn: loader.Func, name: str) -> List[ast.AST]:
     return out
 
 
+def _signed_message(fn: loader.Func) -> List[S.Seg]:
+    """The text handed to ``hmac.new(..., msg=...)``, evaluated in the string-composition domain (sa/strbuild.py)."""
+    hm = [c for c in A.func_calls(fn) if (A.call_name(c) or "") == "hmac.new"]
+    if not hm:
+        return []
+    msg = A.kw(hm[0], "msg") or (hm[0].args[1] if len(hm[0].args) > 1 else None)
+    return S.segments(fn, msg) if msg is not None else []
+
+
 def _signer_encoders(fn: loader.Func) -> Dict[str, Tuple[str, ast.AST]]:
-    """parameter name -> (encoder function name, node) for every ``enc(param)`` whose result is added to the message."""
+    """parameter name -> (encoder function name, node) for every ``enc(param)`` that is part of the signed message."""
     out: Dict[str, Tuple[str, ast.AST]] = {}
-    for c in A.func_calls(fn):
-        nm = A.call_name(c) or ""
-        if nm.split(".")[-1] in ("urlencode", "quote", "quote_plus", "dumps") and c.args and isinstance(c.args[0], ast.Name) \
-                and c.args[0].id in fn.params:
-            extra = [k.arg for k in c.keywords]
-            out[c.args[0].id] = (nm.split(".")[-1] + (f"({','.join(extra)})" if extra else ""), c)
+    for seg in _signed_message(fn):
+        if seg.kind == "enc" and seg.arg in fn.params:
+            out[seg.arg] = (seg.text, seg.node)
     return out
 
 
@@ -66,19 +73,17 @@ def _query_transport(ctx: Ctx, fn: loader.Func, call: ast.Call) -> Tuple[str, Op
     if p is not None and not (isinstance(p, ast.Constant) and p.value is None):
         return ("yarl-query-quoter", A.dotted(p), f"params={ast.unparse(p)}")
     url = call.args[0] if call.args else A.kw(call, "url")
-    defs = [url] if not isinstance(url, ast.Name) else _local_def(fn, url.id)
-    for d in defs:
-        for x in ast.walk(d):
-            if isinstance(x, ast.Call) and (A.call_name(x) or "").endswith("URL") and A.const_value(A.kw(x, "encoded")) is True:
-                encs = [y for y in ast.walk(x) if isinstance(y, ast.Call) and (A.call_name(y) or "").split(".")[-1] in
-                        ("urlencode", "quote", "quote_plus")]
-                if encs and encs[0].args:
-                    extra = [k.arg for k in encs[0].keywords]
-                    return ((A.call_name(encs[0]) or "").split(".")[-1] + (f"({','.join(extra)})" if extra else ""),
-                            A.dotted(encs[0].args[0]), f"yarl.URL(<{ast.unparse(encs[0])}>, encoded=True)")
-                return ("identity", None, ast.unparse(x)[:60])
-        if any(isinstance(y, ast.Call) and (A.call_name(y) or "").split(".")[-1] in ("urlencode",) for y in ast.walk(d)):
-            return ("yarl-requote", None, "query concatenated into a plain str URL (aiohttp re-quotes it)")
+    segs = S.segments(fn, url)
+    if len(segs) == 1 and segs[0].kind == "expr" and isinstance(segs[0].node, ast.Call) and (A.call_name(segs[0].node) or "").endswith("URL") \
+            and A.const_value(A.kw(segs[0].node, "encoded")) is True and segs[0].node.args:
+        x = segs[0].node
+        inner = S.segments(fn, x.args[0])
+        encs = [y for y in inner if y.kind == "enc"]
+        if encs:
+            return (encs[0].text, encs[0].arg, f"yarl.URL(<... {encs[0].text}({encs[0].arg})>, encoded=True)")
+        return ("identity", None, ast.unparse(x)[:60])
+    if any(y.kind == "enc" for y in segs):
+        return ("yarl-requote", None, "query concatenated into a plain str URL (aiohttp re-quotes it)")
     return ("none", None, "no query string is sent")
 
 
@@ -137,8 +142,8 @@ def rule_encoders(ctx: Ctx) -> None:
               f"signed with {enc['data'][0]}({d_var}), sent as {bt[2]}",
               f"the body is signed with {enc['data'][0]}({d_var}) but sent as {bt[2]} [{bt[0]}]", key_text="binance body encoders")
     # order in the signed text: query first, then body
-    src = ast.unparse(sig.node)
-    ctx.check(src.index("urlencode(qs_params)") < src.index("urlencode(data)"), "C16.1",
+    order = [x.arg for x in _signed_message(sig)]
+    ctx.check(order == ["qs_params", "data"], "C16.1",
               "binance signs query string followed by body", sig, sig.node, "qs then body", "signed text is not query+body",
               key_text="binance total params order")
     # ---- Bitstamp
@@ -317,39 +322,66 @@ BITSTAMP_MESSAGE = ["X-Auth", "method", "hostname", "path", "qs_params", "Conten
                     "X-Auth-Version", "data"]
 
 
+def _sig(segs: List[S.Seg]) -> List[Tuple[str, str, Optional[str]]]:
+    return [(x.kind, x.text, x.arg) for x in segs]
+
+
 def rule_spec(ctx: Ctx) -> None:
+    from .. import norm as N
     fn = ctx.func(f"{BTS}.helpers.get_auth_headers")
-    parts: List[str] = []
-    for n in sorted([x for x in C.walk_shallow(fn.node) if isinstance(x, (ast.Assign, ast.AugAssign))], key=A.seq):
-        tgt = n.targets[0] if isinstance(n, ast.Assign) else n.target
-        if not (isinstance(tgt, ast.Name) and tgt.id == "message"):
-            continue
-        v = n.value
-        lab = None
-        for x in ast.walk(v):
-            if isinstance(x, ast.Subscript) and A.dotted(x.value) == "headers":
-                lab = A.const_value(x.slice)
-            elif isinstance(x, ast.Call) and (A.call_name(x) or "") == "headers.get" and x.args:
-                lab = A.const_value(x.args[0])
-            elif isinstance(x, ast.Name) and x.id in fn.params and lab is None:
-                lab = x.id
-        parts.append(str(lab))
-    ctx.sample({"rule": "C16.3", "bitstamp_message_parts": parts})
-    ctx.check(parts == BITSTAMP_MESSAGE, "C16.3", "bitstamp v2 message is built in the documented order", fn, fn.node,
-              " + ".join(parts), f"message parts are {parts}, the documentation says {BITSTAMP_MESSAGE}", key_text="v2 message order")
-    src = ast.unparse(fn.node).replace('"', "'")
-    hdrs = {"'X-Auth': 'BITSTAMP {}'.format(api_key)": "X-Auth = 'BITSTAMP ' + key", "'X-Auth-Nonce': nonce": "nonce header",
-            "'X-Auth-Timestamp': timestamp": "timestamp header", "'X-Auth-Version': 'v2'": "version v2"}
-    for frag, what in hdrs.items():
-        ctx.check(frag in src, "C16.3", f"bitstamp header {what}", fn, fn.node, frag, f"header fragment {frag} not found",
-                  key_text=f"hdr {what}")
-    ctx.check("method.upper()" in src, "C16.3", "bitstamp signs the upper-case verb", fn, fn.node, "method.upper()",
-              "verb not upper-cased in the message", key_text="verb upper")
-    ctx.check("str(int(round(time.time() * 1000)))" in src, "C16.3", "bitstamp timestamp is the current time in ms", fn, fn.node,
+    b = S.Builder(fn)
+    # the headers returned: the dict the signature is stored into
+    sig_store = [s for s in A.stores(fn) if isinstance(s.target, ast.Subscript) and A.const_value(s.target.slice) == "X-Auth-Signature"]
+    ctx.require(sig_store and isinstance(sig_store[0].target.value, ast.Name), "C16.3: get_auth_headers no longer stores X-Auth-Signature into a local dict")
+    hname = sig_store[0].target.value.id
+    ents = b.dict_entries(hname)
+
+    def hv(key: str) -> List[S.Seg]:
+        out: List[S.Seg] = []
+        for v, g in ents.get(key, []):
+            for x in S.segments(fn, v):
+                x.guard = x.guard or g
+                out.append(x)
+        return out
+    message = _signed_message(fn)
+    spec = [("X-Auth", hv("X-Auth")), ("method", [S.Seg("expr", "method.upper()")]), ("hostname", [S.Seg("expr", "hostname")]),
+            ("path", [S.Seg("expr", "path")]), ("qs_params", [S.Seg("enc", "urlencode", None, None, "qs_params")]),
+            ("Content-Type", hv("Content-Type")), ("X-Auth-Nonce", hv("X-Auth-Nonce")), ("X-Auth-Timestamp", hv("X-Auth-Timestamp")),
+            ("X-Auth-Version", hv("X-Auth-Version")), ("data", [S.Seg("enc", "urlencode", None, None, "data")])]
+    expected = [t for _, segs in spec for t in _sig(segs)]
+    # adjacent literals are merged by segments(); merge the expectation the same way
+    def merge(ts):
+        out: List[Tuple[str, str, Optional[str]]] = []
+        for t in ts:
+            if t[0] == "lit" and out and out[-1][0] == "lit":
+                out[-1] = ("lit", out[-1][1] + t[1], None)
+            else:
+                out.append(t)
+        return out
+    got = merge(_sig(message))
+    parts = [x.label() for x in message]
+    ctx.sample({"rule": "C16.3", "bitstamp_message_parts": parts, "documented": BITSTAMP_MESSAGE})
+    ctx.check(got == merge(expected) and all(segs for _, segs in spec), "C16.3", "bitstamp v2 message is built in the documented order", fn, fn.node,
+              " + ".join(parts), f"message parts are {parts}, the documentation says {BITSTAMP_MESSAGE} (with the header values "
+              f"{[x.label() for _, segs in spec for x in segs]})", key_text="v2 message order")
+    want = {"X-Auth": [("lit", "BITSTAMP ", None), ("expr", "api_key", None)], "X-Auth-Nonce": [("expr", "nonce", None)],
+            "X-Auth-Version": [("lit", "v2", None)]}
+    for key, w in want.items():
+        ctx.check(_sig(hv(key)) == w, "C16.3", f"bitstamp header {key}", fn, fn.node, str(w), f"header {key} is {[x.label() for x in hv(key)]}",
+                  key_text=f"hdr {key}")
+    ts = hv("X-Auth-Timestamp")
+    okts = len(ts) == 1 and ts[0].kind == "expr" and N.canon(N.expand(fn, ts[0].node if ts[0].node is not None else ast.Name(id=ts[0].text, ctx=ast.Load()))) \
+        == "str(int(round(time.time() * 1000)))"
+    ctx.check(okts, "C16.3", "bitstamp timestamp is the current time in ms", fn, fn.node,
               "time.time() * 1000", "timestamp not read from the clock in ms", key_text="bts timestamp")
-    ct = [n for n in C.walk_shallow(fn.node) if isinstance(n, ast.If) and A.dotted(n.test) == "data"]
-    okct = any("headers['Content-Type'] = 'application/x-www-form-urlencoded'" in ast.unparse(b).replace('"', "'") for n in ct for b in n.body)
-    ctx.check(okct, "C16.3", "Content-Type is set (and signed) iff there is a body", fn, ct[0] if ct else fn.node,
+    ct = hv("Content-Type")
+    okct = len(ct) == 1 and (ct[0].kind, ct[0].text) == ("lit", "application/x-www-form-urlencoded") and (ct[0].guard or "").replace(" ", "") in ("data", "content_type") \
+        and all((x.guard or "") == "data" for x in message if (x.kind, x.text) == ("lit", "application/x-www-form-urlencoded"))
+    if okct and ct[0].guard != "data":
+        # guard is a local: its truthiness must be that of `data`
+        gv = N.expand(fn, ast.Name(id=ct[0].guard, ctx=ast.Load()))
+        okct = isinstance(gv, ast.IfExp) and N.canon(gv.test) == "data" and A.const_value(gv.orelse) == "" and bool(A.const_value(gv.body))
+    ctx.check(okct, "C16.3", "Content-Type is set (and signed) iff there is a body", fn, fn.node,
               "if data: Content-Type = application/x-www-form-urlencoded", "Content-Type not tied to the presence of a body",
               key_text="content type iff body")
     for q, keyname in ((f"{BTS}.helpers.get_auth_headers", "api_secret"), (f"{BIN}.helpers.get_signature", "api_secret")):
@@ -358,13 +390,13 @@ def rule_spec(ctx: Ctx) -> None:
         okh = bool(hm) and ast.unparse(hm[0].args[0]) == f"{keyname}.encode()" and A.dotted(A.kw(hm[0], "digestmod")) == "hashlib.sha256" \
             and isinstance(hm[0].parent, ast.Attribute) and hm[0].parent.attr == "hexdigest"  # type: ignore[attr-defined]
         msg = A.kw(hm[0], "msg") if hm else None
-        okm = msg is not None and ast.unparse(msg).replace('"', "'") in ("message.encode('utf-8')", "total_params.encode('utf-8')")
+        okm = isinstance(msg, ast.Call) and isinstance(msg.func, ast.Attribute) and msg.func.attr == "encode" \
+            and (not msg.args or A.const_value(msg.args[0]) in ("utf-8", "utf8")) and bool(_signed_message(f2))
         ctx.check(okh and okm, "C16.3", f"{q.split('.')[2]}: HMAC-SHA256 of the message under the secret, hex encoded", f2,
                   hm[0] if hm else f2.node, "hmac.new(secret, msg, sha256).hexdigest()", "digest is not HMAC-SHA256/hex of the message",
                   key_text=f"hmac {q}")
     # the signature is the last header written
-    sig_store = [s for s in A.stores(fn) if isinstance(s.target, ast.Subscript) and A.const_value(s.target.slice) == "X-Auth-Signature"]
-    later = [s for s in A.stores(fn) if A.dotted(A.base_attr(s.target)[0] if False else (s.target.value if isinstance(s.target, ast.Subscript) else s.target)) == "headers"
+    later = [s for s in A.stores(fn) if A.dotted(A.base_attr(s.target)[0] if False else (s.target.value if isinstance(s.target, ast.Subscript) else s.target)) == hname
              and sig_store and A.seq(s.stmt) > A.seq(sig_store[0].stmt)]
     ctx.check(bool(sig_store) and not later, "C16.3", "bitstamp signature is the last header written", fn,
               sig_store[0].stmt if sig_store else fn.node, "no header modified after signing", "a header is modified after the "
